@@ -366,6 +366,20 @@ func runIntegJob(c *Ctl, job *Job, idx int, res *RunResult) {
 		res.HarnessErr = "unknown integ profile " + job.Profile
 		return
 	}
+	// a share of the flat pipeline worlds is written to a configuration file and built by the real
+	// loader (stage / task attributes travel through internal/config instead of the Go API)
+	if w.Graph != nil && (job.Profile == "c06" || job.Profile == "c07") && idx >= 1536 {
+		flat := true
+		for _, st := range w.Graph.Stages {
+			if st.Nested != nil {
+				flat = false
+			}
+		}
+		if flat && c.Ch.Bool(1, 2, "via-config") {
+			w.ViaConfig = true
+			c.Count("worlds_built_by_config_loader")
+		}
+	}
 	res.Sample = map[string]interface{}{"world": w.Summary()}
 	e := RunIntegWorld(c, prof, w, res)
 	if e == nil {
